@@ -181,14 +181,16 @@ func (fr *Frame) stmt(st *State, s ast.Stmt) flow {
 // chanSend records a send on the ghost channel log. blocking==true marks a bare send.
 func (fr *Frame) chanSend(st *State, n ast.Node, ch, v Val, blocking bool) {
 	x := fr.x
-	nk := x.nsentKey(v.S)
+	el := chanElem(ch.Ty)
+	if el == nil {
+		el = v.Ty
+	}
+	nk, key, _ := x.chanKeys(el)
 	if blocking && fr.contract != nil && fr.nonblocking() {
 		fr.x.u.oblige("nonblocking:send:"+trunc(fr.src(n), 40), "nonblocking", "send may block", fr.pos(n.Pos()), st.pc, "false")
 	}
 	old := x.getHeap(st, nk)
 	x.heapStore(st, nk, ch.T, "(+ (select "+old+" "+ch.T+") 1)")
-	key := "chan.last." + sortId(v.S)
-	x.u.regHeap(key, "(Array Int "+v.S+")")
 	x.heapStore(st, key, ch.T, v.T)
 }
 
